@@ -7,12 +7,100 @@ import z3
 from .worker import solve
 
 
-def to_smt2(ob):
+_fresh = [0]
+
+
+def expand_goal(goal, hyps=(), limit=24):
+    """split a goal into sub-goals: implications move to the hypotheses, universals are skolemised with fresh
+    constants (so that their instances are ground terms), conjunctions are split -> list of (hyps, atom)"""
+    out = []
+
+    def rec(g, hs):
+        if len(out) > limit:
+            out.append((hs, g))
+            return
+        if z3.is_implies(g):
+            return rec(g.arg(1), hs + [g.arg(0)])
+        if z3.is_and(g) and g.num_args() > 0:
+            for c in g.children():
+                rec(c, hs)
+            return
+        if z3.is_quantifier(g) and g.is_forall():
+            consts = []
+            for i in range(g.num_vars()):
+                _fresh[0] += 1
+                consts.append(z3.Const("sk!%s!%d" % (g.var_name(i), _fresh[0]), g.var_sort(i)))
+            body = z3.substitute_vars(g.body(), *reversed(consts))
+            return rec(body, hs)
+        if z3.is_not(g) and z3.is_quantifier(g.arg(0)) and g.arg(0).is_exists():
+            q = g.arg(0)
+            consts = []
+            for i in range(q.num_vars()):
+                _fresh[0] += 1
+                consts.append(z3.Const("sk!%s!%d" % (q.var_name(i), _fresh[0]), q.var_sort(i)))
+            body = z3.substitute_vars(q.body(), *reversed(consts))
+            return rec(z3.Not(body), hs)
+        out.append((hs, g))
+    rec(goal, list(hyps))
+    return out
+
+
+def _hint_terms(formulas):
+    """ground, trigger-eligible terms that occur only inside quantifier bodies are invisible to E-matching;
+    collect them so that they can be registered as ground terms (hint assertions carry no logical content)"""
+    found = {}
+    memo = {}
+
+    def has_var(t):
+        k = t.get_id()
+        if k in memo:
+            return memo[k]
+        if z3.is_var(t):
+            r = True
+        elif z3.is_quantifier(t):
+            r = True
+        else:
+            r = any(has_var(c) for c in t.children())
+        memo[k] = r
+        return r
+
+    seen = set()
+
+    def walk(t, inside):
+        k = (t.get_id(), inside)
+        if k in seen:
+            return
+        seen.add(k)
+        if z3.is_quantifier(t):
+            walk(t.body(), True)
+            return
+        if z3.is_var(t):
+            return
+        if inside and z3.is_app(t) and t.num_args() > 0 and not has_var(t):
+            if t.decl().kind() in (z3.Z3_OP_SELECT, z3.Z3_OP_UNINTERPRETED):
+                found[t.get_id()] = t
+        for c in t.children():
+            walk(c, inside)
+    for f in formulas:
+        walk(f, False)
+    return list(found.values())
+
+
+def to_smt2_parts(pc, hyps, atom):
     s = z3.Solver()
-    for f in ob.pc:
+    fs = list(pc) + list(hyps) + [z3.Not(atom)]
+    for f in fs:
         s.add(f)
-    s.add(z3.Not(ob.goal))
+    hints = _hint_terms(fs)
+    for t in hints:
+        h = z3.Function("hint!" + str(t.sort()).replace(" ", "_").replace("(", "<").replace(")", ">"), t.sort(), z3.BoolSort())
+        s.add(h(t))
     return s.to_smt2().replace("(check-sat)\n", "")
+
+
+def to_smt2(ob):
+    parts = expand_goal(ob.goal)
+    return [to_smt2_parts(ob.pc, hs, atom) for hs, atom in parts]
 
 
 _pool = None
@@ -33,15 +121,27 @@ def discharge(obligations, timeout_ms=10000, second=True, want_model=True):
         if z3.is_true(ob.goal):
             results[i] = {"name": ob.name, "verdict": "proved", "backend": "syntactic", "seconds": 0.0, "model": None, "reason": ""}
             continue
-        tasks.append((i, (ob.name, to_smt2(ob), timeout_ms, want_model, second)))
+        for text in to_smt2(ob):
+            tasks.append((i, (ob.name, text, timeout_ms, want_model, second)))
     if tasks:
         if len(tasks) <= 2 or os.environ.get("PYVC_SERIAL"):
-            for i, t in tasks:
-                results[i] = solve(t)
+            subs = [(i, solve(t)) for i, t in tasks]
         else:
             futs = [(i, pool().submit(solve, t)) for i, t in tasks]
-            for i, f in futs:
-                results[i] = f.result()
+            subs = [(i, f.result()) for i, f in futs]
+        # an obligation is proved when every sub-goal is; refuted when some sub-goal is refuted
+        for i, r in subs:
+            cur = results[i]
+            if cur is None:
+                results[i] = dict(r, parts=1)
+                continue
+            cur["parts"] += 1
+            cur["seconds"] = round(cur["seconds"] + r["seconds"], 3)
+            rank = {"refuted": 0, "unknown": 1, "proved": 2}
+            if rank[r["verdict"]] < rank[cur["verdict"]]:
+                keep = cur["parts"], cur["seconds"]
+                cur.update(r)
+                cur["parts"], cur["seconds"] = keep
     return results
 
 
